@@ -255,7 +255,7 @@ func runGroupCase(c groupCase) *core.Failure {
 	if c.Perm != nil {
 		qf = model.BuildPermuted(c.Frame, c.Perm)
 	}
-	in := model.Observe(qf)
+	in := model.ObserveAs(qf, c.Frame)
 	if in.Err {
 		return core.Failf("could not build input: %s", in.ErrText)
 	}
